@@ -20,9 +20,9 @@ RULE = ("templates of depth <= 4 over Expression/List/Tuple/Set/Dict/FString/FCo
         "wrappers, splices of lists/tuples/generators/dicts/strings/bytes/models/None/empty/falsy "
         "values, substituted values of every representable type, level-0 unquote arguments that are "
         "names, literals, list displays or nested quote/quasiquote forms; plus templates read from "
-        "source text and wrong-arity unquotes. Non-trivial = template with a splice or a nesting "
+        "source text and wrong-arity unquotes (outcome recorded, not judged). Non-trivial = template with a splice or a nesting "
         "level >= 1; distinct by rendered case.")
-FLOOR = {"quick": 2000, "thorough": 2000}
+FLOOR = {"quick": 800, "thorough": 2000}
 BUDGET = {"quick": 25, "thorough": 480}
 CASE_TIMEOUT = 20
 NEEDS_EVENTS = True
@@ -42,7 +42,7 @@ MANIFEST = {
             "of every iterable kind and of false values, substituted values of every representable "
             "type) are evaluated by hy and by an independent 40-line reference evaluator of the "
             "level-counting rule; results are compared by deep typed equality (all model attributes, "
-            "NaN-aware) after promotion. Wrong-arity level-0 unquotes must raise a Hy error. "
+            "NaN-aware) after promotion. The outcome of wrong-arity level-0 unquotes is only recorded. "
             "Exploration: held on the templates run, nothing beyond.",
     "note": "Trusted: the reference evaluator and the model constructors. Bounds: depth <= 4, nesting "
             "level <= 2, values of size <= 4.",
@@ -484,11 +484,11 @@ def judge(tmpl, env_json):
     if not _state["patched"]:
         _state["events"] += 1
     if exp_exc is not None:
-        if got_exc is None:
-            return False, f"{exp_exc} with a wrong number of arguments was accepted: {got!r}"[:800], ["arity-error"]
-        if not isinstance(got_exc, HyError):
-            return False, f"wrong-arity {exp_exc} raised {type(got_exc).__name__}, not a Hy error", ["arity-error"]
-        return True, None, ["arity-error", "arity-error:" + type(got_exc).__name__]
+        # A level-0 unquote with a wrong number of arguments has no reference result; the
+        # statement does not say what must happen, so the outcome is only recorded.
+        outcome = "accepted" if got_exc is None else (
+            ("hy-error:" if isinstance(got_exc, HyError) else "other-error:") + type(got_exc).__name__)
+        return None, None, ["observed:wrong-arity-unquote:" + outcome]
     if got_exc is not None:
         return False, (f"quasiquote raised {type(got_exc).__name__}: {str(got_exc)[:500]}; "
                        f"reference gives {exp!r}")[:1200], []
